@@ -83,18 +83,18 @@ DETS = {
                                                        detect_level=0.1)),
     "KdqTreeBatch": dict(fam="bx", kind="KBatch", L=6,
                          mk=lambda: KdqTreeBatch(bootstrap_samples=6, count_ubound=2, alpha=0.1)),
-    "HDDDM1": dict(fam="bx", kind="KBatch", L=6, mk=_hdddm(1), hdm1=True),
-    "HDDDM2": dict(fam="bx", kind="KBatch", L=6, mk=_hdddm(2), hdm=True),
-    "HDDDM3": dict(fam="bx", kind="KBatch", L=6, mk=_hdddm(3), hdm=True),
+    "HDDDM1": dict(fam="bx", kind="KBatchHdm1", L=6, mk=_hdddm(1), hdm1=True),
+    "HDDDM2": dict(fam="bx", kind="KBatch", L=6, mk=_hdddm(2)),
+    "HDDDM3": dict(fam="bx", kind="KBatch", L=6, mk=_hdddm(3)),
     "NNDVI": dict(fam="bx", kind="KBatch", L=6, mk=lambda: NNDVI(k_nn=2, sampling_times=12, alpha=0.1)),
-    "CDBD1": dict(fam="bx", kind="KBatchCdbd", L=6, mk=_cdbd(1), hdm1=True),
-    "CDBD2": dict(fam="bx", kind="KBatchCdbd", L=6, mk=_cdbd(2), hdm=True),
-    "CDBD3": dict(fam="bx", kind="KBatchCdbd", L=6, mk=_cdbd(3), hdm=True),
+    "CDBD1": dict(fam="bx", kind="KBatchCdbd1", L=6, mk=_cdbd(1), hdm1=True),
+    "CDBD2": dict(fam="bx", kind="KBatchCdbd", L=6, mk=_cdbd(2)),
+    "CDBD3": dict(fam="bx", kind="KBatchCdbd", L=6, mk=_cdbd(3)),
 }
 
 
 def is_uni(name):
-    return DETS[name]["kind"] in ("KStreamUni", "KBatchCdbd")
+    return DETS[name]["kind"] in ("KStreamUni", "KBatchCdbd", "KBatchCdbd1")
 
 
 def is_batch(name):
@@ -174,7 +174,9 @@ def norm_shape(o, batch):
 
 def spec_run(name, calls):
     """expected verdict of every call, plus the structural flags used to recognise the recorded
-    findings: width / names are established by the first ACCEPTED input / DataFrame only."""
+    findings: width / names are established by the first ACCEPTED input / DataFrame only.
+    (For HDDDM/CDBD with detect_batch=1 the proxy batch now goes in as an array, so after array
+    input a DataFrame is still subject to the S12 gap.)"""
     batch, uni, hdm1 = is_batch(name), is_uni(name), DETS[name].get("hdm1", False)
     width, names, n_acc = None, None, 0
     out = []
@@ -185,21 +187,17 @@ def spec_run(name, calls):
             r, w = norm_shape(x, batch)
             isdf = isinstance(x, pd.DataFrame)
             rows_ok = (r >= 2) if batch else (r == 1)
+            if hdm1 and c.get("op") == "set_reference":
+                rows_ok = r >= 3        # detect_batch=1: half of the reference is fed back as a test batch
             width_ok = width is None or w == width
             names_ok = (not isdf) or names is None or list(x.columns) == names
             ok = rows_ok and width_ok and names_ok and ((not uni) or w == 1)
             # S12 for BatchDetector: a DataFrame of another width, only non-DataFrame inputs accepted so far
             flags["s12"] = bool(batch and isdf and rows_ok and names is None and width is not None and w != width
-                                and n_acc >= 1 and not hdm1 and not uni)
-            # HDM detect_batch=1: the proxy batch installed RangeIndex names although no DataFrame was ever passed
-            flags["fa"] = bool(hdm1 and isdf and ok and names is None and n_acc >= 1
-                               and list(x.columns) != list(range(w)))
-            # HDM detect_batch=1: a reference of two rows leaves a one-row proxy batch
-            flags["fb"] = bool(hdm1 and ok and r == 2)
-            # HDM detect_batch=2,3: the reference built from arrays has labels 0..d-1; a DataFrame with other
-            # labels is concatenated to it BY LABEL
-            flags["fc"] = bool(DETS[name].get("hdm") and isdf and ok and names is None and n_acc >= 1
-                               and list(x.columns) != list(range(w)))
+                                and n_acc >= 1 and not uni)
+            # HDM detect_batch=1: a two-row test batch on which drift is detected becomes a reference that
+            # cannot be split (its proxy batch has one row): the NEXT update is refused
+            flags["fb"] = bool(hdm1 and ok and r == 2 and c.get("op") == "update")
             flags["isdf"] = isdf
         for y in (yt, yp):
             if y is not None:
@@ -227,12 +225,12 @@ def pattern(case):
     sp = spec_run(case["det"], full_calls(case))
     tags = set()
     for ok, fl in sp:
-        for t in ("s12", "fa", "fb", "fc"):
+        for t in ("s12", "fb"):
             if fl.get(t):
                 tags.add(t)
     if case["mode"] == "mix":
         for ok, fl in spec_run(case["det"], alt_calls(case)):
-            for t in ("s12", "fa", "fb", "fc"):
+            for t in ("s12", "fb"):
                 if fl.get(t):
                     tags.add(t)
     return "+".join(sorted(tags))
@@ -357,11 +355,10 @@ def play(name, calls, seed):
         if exc is None:
             n_acc += 1
         last = snapshot(det)
-        ref = getattr(det, "reference", None)
         out.append({"acc": exc is None, "exc": exc, "msg": msg, "where": where, "invs": rec.invs if rec.ok else None,
                     "attrs": vattrs(det), "pre": pre, "snap": last,
-                    "refw": int(ref.shape[1]) if isinstance(ref, pd.DataFrame) else None,
-                    "x": None if x is None else desc(x),
+
+                    "op": c.get("op", "update"), "x": None if x is None else desc(x),
                     "yt": None if yt is None else desc(yt), "yp": None if yp is None else desc(yp)})
     return out
 
@@ -559,36 +556,27 @@ def classify(case, obs):
     for calls, recs in runs:
         sp = spec_run(name, calls)
         i, m = first_deviation(name, calls, recs)
-        # HDM detect_batch 2,3: a reference that became wider than the data (label-wise concat) explains
-        # everything from that call on
-        wide = [k for k, ((ok, fl), r) in enumerate(zip(sp, recs))
-                if fl.get("fc") and r["acc"] and r["refw"] is not None and r["attrs"] is not None
-                and r["attrs"][1] is not None and r["refw"] > r["attrs"][1]]
         if i is None:
-            if wide:
-                found.append("HDM-mixed-labels")
             continue
         ok, fl = sp[i]
         r = recs[i]
         invs = r["invs"] or []
         user_ret = any(u and o[0] == "ret" for u, d, o in invs)
         user_raise = any(u and o[0] == "raise" for u, d, o in invs)
-        internal_raise = any((not u) and o[0] == "raise" and o[1] == "ValueError" for u, d, o in invs)
-        if wide and wide[0] < i:
-            found.append("HDM-mixed-labels")
-        elif not ok and fl.get("s12") and (r["acc"] or user_ret) and case["mode"] == "inject" \
+        proxy_raise = any((not u) and o[0] == "raise" and o[1] == "ValueError" and d is not None
+                          and d[0] == "a2" and d[1] <= 1 for u, d, o in invs)
+        if not ok and fl.get("s12") and (r["acc"] or user_ret) and case["mode"] == "inject" \
                 and calls is not case["calls"] and i == case["inj"]["pos"]:
             found.append("S12-batch")
-        elif ok and fl.get("fa") and r["exc"] == "ValueError" and user_raise:
-            found.append("HDM-proxy-names")
-        elif ok and DETS[name].get("hdm1") and r["exc"] == "ValueError" and internal_raise and not user_raise:
+        elif ok and DETS[name].get("hdm1") and calls[i].get("op") == "update" and r["exc"] == "ValueError" \
+                and proxy_raise and not user_raise and any(f.get("fb") for _, f in sp[:i]):
             found.append("HDM-proxy-rows")
         else:
             found.append("other")
     kinds = set(found)
     if len(kinds) == 1:
         return found[0]
-    return "other" if "other" in kinds or not kinds else "+".join(sorted(kinds))
+    return "other"
 
 
 def signature(case, obs, msgs):
@@ -614,7 +602,8 @@ def call_term(name, r):
     known = r["attrs"] is not None
     cols = "None" if not known or r["attrs"][0] is None else f"(Some {G.zlist(r['attrs'][0])})"
     dim = "None" if not known else G.optz(r["attrs"][1])
-    return (f"(mkCall {opt_desc_term(r['x'])} {opt_desc_term(r['yt'])} {opt_desc_term(r['yp'])} {G.lst(invs)} "
+    return (f"(mkCall {G.boolc(r.get('op') == 'set_reference')} {opt_desc_term(r['x'])} {opt_desc_term(r['yt'])} "
+            f"{opt_desc_term(r['yp'])} {G.lst(invs)} "
             f"{G.boolc(passed)} {cols} {dim} {G.boolc(known)})")
 
 
@@ -852,6 +841,31 @@ def malformed_y(rng):
         {"c": "py", "v": []}, {"c": "empty", "shape": [0]}, {"c": "py", "v": [1, 0, 1]}])
 
 
+def witnesses():
+    """the inputs on which HistogramDensityMethod failed before its three repairs (now they must pass)"""
+    A = [[float((2 * i + j) % 5) for j in range(2)] for i in range(8)]
+    A1 = [[float((3 * i) % 5)] for i in range(8)]
+    plus = lambda M, k: [[v + k for v in r] for r in M]
+    out = []
+    for det, M, nm in (("HDDDM1", A, ["a", "b"]), ("HDDDM2", A, ["a", "b"]), ("HDDDM3", A, ["a", "b"]),
+                       ("CDBD1", A1, ["a"]), ("CDBD2", A1, ["a"]), ("CDBD3", A1, ["a"])):
+        arr = lambda k, op="update": {"op": op, "x": {"c": "np", "v": plus(M, k)}}
+        df = lambda k: {"op": "update", "x": {"c": "df", "v": plus(M, k), "n": nm}}
+        base = [arr(0, "set_reference"), arr(1), arr(2), arr(3)]
+        # array reference, then a DataFrame with real column names, then arrays again
+        out.append({"mode": "mix", "det": det, "d": len(nm), "seed": 11, "calls": base,
+                    "alt": [arr(0, "set_reference"), df(1), arr(2), arr(3)], "plan": "witness-names"})
+        out.append({"mode": "mix", "det": det, "d": len(nm), "seed": 11, "calls": base,
+                    "alt": [arr(0, "set_reference"), df(1), df(2), arr(3)], "plan": "witness-names"})
+        if DETS[det].get("hdm1"):
+            # a two-row reference: refused, and invisible afterwards, first and in the middle
+            two = {"op": "set_reference", "x": {"c": "np", "v": [r[:] for r in M[:2]]}}
+            for pos in (0, 2, 4):
+                out.append({"mode": "inject", "det": det, "d": len(nm), "seed": 11, "calls": base,
+                            "inj": {"pos": pos, "kind": "ref2", "call": two}, "plan": "witness-rows"})
+    return out
+
+
 def gen_cases(ctx):
     rng = ctx.rng
     cases = []
@@ -894,7 +908,8 @@ def gen_cases(ctx):
                     positions = list(range(L + 1))
                     if name == "PCACD" and not ctx.thorough:
                         positions = sorted(set([0, 1, 7, 8, 9, 16, 17, 20, 21, 22, 23, L]))
-                    kinds = ["ymulti"] if fam == "sy" else ["rows", "width", "renamed"] + (["multicol"] if is_uni(name) else [])
+                    kinds = ["ymulti"] if fam == "sy" else ["rows", "width", "renamed"] + (["multicol"] if is_uni(name) else []) \
+                        + (["ref2"] if info.get("hdm1") else [])
                     for pos in positions:
                         for kind in kinds:
                             reps = 2 if (ctx.thorough and not heavy) else 1
@@ -910,10 +925,16 @@ def gen_cases(ctx):
                                         call = {"op": "update", "yt": malformed_y(rng), "yp": malformed_y(rng)}
                                 else:
                                     nrows = len(hist[0]) if fam == "bx" else 1
-                                    x = malformed(name, d, names, kind, rng, nrows)
-                                    op = "update"
-                                    if fam == "bx":
-                                        op = "set_reference" if (pos == 0 or rng.random() < 0.2) else "update"
+                                    if kind == "ref2":
+                                        # detect_batch=1: a reference of two rows cannot be split
+                                        x = bx([[rnd(rng.gauss(3, 2)) for _ in range(d)] for _ in range(2)],
+                                               rng.choice(containers(name, d)), names)
+                                        op = "set_reference"
+                                    else:
+                                        x = malformed(name, d, names, kind, rng, nrows)
+                                        op = "update"
+                                        if fam == "bx":
+                                            op = "set_reference" if (pos == 0 or rng.random() < 0.2) else "update"
                                     call = {"op": op, "x": x}
                                 case = {"mode": "inject", "det": name, "d": d, "seed": seed, "calls": calls,
                                         "inj": {"pos": pos, "kind": kind, "call": call}, "plan": tag}
@@ -928,12 +949,15 @@ def gen_cases(ctx):
         if fam == "bx":
             d = 1 if is_uni(name) else 2
             for n0, n1 in ((2, 2), (3, 3), (6, 2)):
+                if info.get("hdm1") and n0 < 3:
+                    continue            # refused by the detect_batch=1 guard: covered by the "ref2" injections
                 hist = [[[rnd(rng.gauss(0 if b < 2 else 7, 1)) for _ in range(d)] for _ in range(n0 if b == 0 else n1)]
                         for b in range(5)]
                 a = make_calls(name, hist, ["arr2"] * 5, None)
                 b = make_calls(name, hist, ["list2"] * 5, None)
                 cases.append({"mode": "mix", "det": name, "d": d, "seed": 7, "calls": a, "alt": b,
                               "plan": f"tiny-{n0}-{n1}"})
+    cases = witnesses() + cases
     # direct calls of _validate_y (batch variant: model only, used by no detector)
     ys = [{"c": "py", "v": 1}, {"c": "py", "v": [1]}, {"c": "py", "v": [1, 0]}, {"c": "np", "v": [[1], [0]], "dt": "i"},
           {"c": "np", "v": [[1, 0]], "dt": "i"}, {"c": "np", "v": [[1]], "dt": "i"}, {"c": "empty", "shape": [0, 1]},
@@ -958,7 +982,7 @@ def gen_cases(ctx):
         if p:
             fams.setdefault("s12" if "s12" in p else p, []).append(c)
     tail, k = [], 0
-    keys = sorted(fams, key=lambda f: {"s12": 0, "fc": 1, "fa": 2, "fb": 3}.get(f, 4))
+    keys = sorted(fams, key=lambda f: {"s12": 0, "fb": 1}.get(f, 2))
     while any(fams.values()):
         for f in keys:
             if fams[f]:
